@@ -578,6 +578,10 @@ func runClientWorld(rc *RunCtx) *Outcome {
 			time.Sleep(time.Duration(rc.Ch.Intn(1_000_000, "clock offset")) * time.Microsecond)
 			cfg := verifhook.Config{MaxSteps: 6000, Horizon: 1 << 62, KeepLog: rc.KeepLog}
 			cfg.Sticky = []int{0, 2, 6}[rc.Ch.Intn(3, "scheduler stickiness")]
+			if rc.Ch.Chance(1, 4, "priority scheduling") {
+				cfg.PCT = 1 + rc.Ch.Intn(3, "pct depth")
+				o.probe("priority (PCT) scheduling")
+			}
 			w.generate()
 			w.sim = verifhook.New(rc.Ch, cfg)
 			verifhook.Install(w.sim)
